@@ -43,6 +43,8 @@ TRUSTED = ['hand-written model coq/Model/Subsample.v tied to biom/table.py:3034-
            'compiled kernels are the shipped .so (Cython absent); when _subsample.pyx differs from the pinned hash the harness runs '
            'the interpreted source instead (tools/decython.py); on the unchanged tree both are run on every case and must agree',
            'extraction (ExtrOcamlBasic only) + ocaml/driver_tail.ml, cross-checked against vm_compute on a sample']
+from . import regen as _regen
+regenerate = _regen.hook(TRUSTED, ['subsample'])   # py2v: regenerate coq/Gen/* from the source first
 ASSUMPTIONS = ['counts are non-negative integers below 2^53 (astype(int64) and ceil are the identity; int64 overflow not modelled)',
                'n >= 1 for the property clauses (n < 0 and by_id with with_replacement are refusals; n = 0 is outside the property)',
                'a recording subclass of numpy.random.Generator over PCG64(seed) is the generator default_rng(seed) would build']
@@ -405,6 +407,7 @@ def _run_stat(c):
     report['tests'].append({'mode': 'by_id', 'subsets': {'/'.join(k): cnt.get(k, 0) for k in keys}, 'chi2': round(x2, 2), 'bound': 14, 'pass': good})
     report['pass'] = ok
     os.makedirs(os.path.join(ROOT, 'evidence'), exist_ok=True)
+    os.makedirs(os.path.join(ROOT, 'stats'), exist_ok=True)
     json.dump(report, open(os.path.join(ROOT, 'stats', 'C12-stat.json'), 'w'), indent=1)
     print('C12 statistical test (a TEST, not part of the proof): %d seeds, %d chi-square comparisons, %s'
           % (len(seeds), len(report['tests']), 'all within bounds' if ok else 'FAILED'))
